@@ -76,6 +76,9 @@ type Conn struct {
 	wg     sync.WaitGroup // Waits for readLoop / writeLoop to exit.
 
 	logger *zap.SugaredLogger
+
+	// Largest payload length a remote peer may declare in a piece payload message.
+	maxPieceLength int64
 }
 
 func newConn(
@@ -104,6 +107,7 @@ func newConn(
 		isPeerOrigin:   isRemotePeerOrigin,
 		infoHash:       info.InfoHash(),
 		createdAt:      clk.Now(),
+		maxPieceLength: info.MaxPieceLength(),
 		localPeerID:    localPeerID,
 		bandwidth:      bandwidth,
 		events:         events,
@@ -221,7 +225,15 @@ func (c *Conn) readMessage() (*Message, error) {
 	if p2pMessage.Type == p2p.Message_PIECE_PAYLOAD {
 		// For payload messages, we must read the actual payload to the connection
 		// after reading the message.
-		payload, err := c.readPayload(p2pMessage.PiecePayload.Length)
+		if p2pMessage.PiecePayload == nil {
+			return nil, errors.New("piece payload message has no body")
+		}
+		length := p2pMessage.PiecePayload.Length
+		if length < 0 || int64(length) > c.maxPieceLength {
+			return nil, fmt.Errorf(
+				"piece payload length %d out of bounds: max piece length = %d", length, c.maxPieceLength)
+		}
+		payload, err := c.readPayload(length)
 		if err != nil {
 			return nil, fmt.Errorf("read payload: %s", err)
 		}
